@@ -13,6 +13,7 @@ HERE = os.path.dirname(os.path.abspath(__file__))
 sys.path.insert(0, HERE)
 os.environ.setdefault('DEEPROB_KIT_VERIF', '1')
 os.environ.setdefault('OMP_NUM_THREADS', '4')
+sys.path.insert(0, os.path.join(HERE, 'hooks'))
 import warnings
 warnings.filterwarnings('ignore')
 
